@@ -23,7 +23,7 @@ class C08(Check):
                    'repeated interior knots have multiplicity <= order-1 (spline stays continuous); for order 1 a point on an '
                    'interior knot may take either neighbouring coefficient',
                    'everyn with nx//everyn < 2 is the open finding everyn_single_breakpoint (see known_findings.json)']
-    REQUIRED_COUNTERS = ('canary_sequences', 'single_point_evaluations', 'presorted_evaluations', 'opt_bkspace', 'opt_nbkpts', 'opt_everyn', 'opt_placed', 'opt_bkpt', 'not_cover_adjusted',
+    REQUIRED_COUNTERS = ('knots_through_iterfit_unsorted_data', 'canary_sequences', 'single_point_evaluations', 'presorted_evaluations', 'opt_bkspace', 'opt_nbkpts', 'opt_everyn', 'opt_placed', 'opt_bkpt', 'not_cover_adjusted',
                          'points_compared_inside', 'points_outside_checked', 'unsorted_inputs', 'float32_inputs',
                          'scipy_agreements')
     CASE_CPU_S = 60
@@ -192,6 +192,21 @@ class C08(Check):
                        't[k-1]=%r xmin=%r t[n]=%r xmax=%r' % (t[k - 1], xmin, t[n], xmax), knots=t)
         if out.fails:
             return
+        # ---- the same breakpoint option through the other public entry point: iterfit builds its spline set from the good points in
+        #      increasing order, whatever order the caller's data are in
+        if opt in ('everyn', 'nbkpts', 'bkspace'):
+            with warnings.catch_warnings():
+                warnings.simplefilter('ignore')
+                ref_t = np.asarray(B.bspline(np.sort(x), nord=k, **kw).breakpoints, dtype='f8')
+                xs = x[np.random.default_rng(case['seed']).permutation(x.size)] if case['seed'] % 3 else x[::-1].copy()
+                s2, m2 = B.iterfit(xs, np.ones(x.size, dtype=x.dtype), nord=k, maxiter=0, **kw)
+            t2 = np.asarray(s2.breakpoints, dtype='f8')
+            out.expect(bool(np.all(np.diff(t2) >= 0)), 'knots', 'iterfit(%s=...): knot vector is not non-decreasing' % opt, knots=t2)
+            out.expect(t2.shape == ref_t.shape and bool(np.array_equal(t2, ref_t)), 'knots',
+                       'iterfit(%s=...) on data in the caller\'s order does not build the knots of the sorted data' % opt,
+                       got=t2[:12], expected=ref_t[:12])
+            out.count('knots_through_iterfit')
+            out.count('knots_through_iterfit_unsorted_data', bool(np.any(np.diff(xs.astype('f8')) < 0)))
         # ---- coefficients
         g = np.random.default_rng(case['seed'])
         if case['coeff_mode'] == 'unit':
